@@ -18,7 +18,7 @@ EXTENDS Integers, Sequences, TLC
 
 CONSTANTS Scoped, NItems, MaxCalls, MaxDepth, Charsets
 
-AllCharsets == {"latin1", "utf-8", "cp1252", "shift_jis", "utf-16", "utf-16-le", "iso2022_jp"}
+AllCharsets == {"latin1", "utf-8", "cp1252", "shift_jis", "utf-16", "utf-16-le", "iso2022_jp", "gb2312", "euc_kr"}
 FewCharsets == {"latin1", "utf-8", "shift_jis"}
 LoadFaults == {"truncate", "bad_data_byte", "undecodable_text", "unknown_charset"}
 SaveFaults == {"non_integer_time", "unencodable_text", "unknown_charset", "realtime_message"}
